@@ -23,9 +23,15 @@ Differences to the wording in DESIGN.md §4 (and why):
 * (ii) "every word at or above the frontier is 0" is bounded by `limit` (the monitor cannot look
   beyond the heap), talks about 8-byte words aligned relative to the heap base only, and the frontier
   block must lie inside the heap: `F + 64 ≤ limit`.
-* Blocks on the linear free list and pending blocks may contain arbitrary stale data in words 1..7;
-  nothing ever reads those before writing them (store writes all three pointer slots of a block
-  before `acquire_block` hands it out; load reads only from live blocks).
+* Blocks on the linear free list and pending blocks may contain arbitrary stale data in words 1..7.
+  The emitted code reads fields of a block that is ALREADY on the linear free list in exactly two
+  places, both immediately after it put the block there and before anything else can touch it:
+  `load_fields` in release mode (`release_block` comes before the loads of the block's fields) and
+  `acquire_block` case (2) (`erase_fields(HEAP)` after the deferred block became the linear list).
+  In the proofs the three pointer slots of such a block are accounted as roots from the moment the
+  block changes lists (`InvW.to_lin`, `InvW.acquire_lazy`).  Otherwise a block taken from the linear
+  list is written before it is read: `store` writes all three pointer slots (value, null or link)
+  before `acquire_block` hands the block out.
 -/
 import Scc.Heap.Model
 
